@@ -82,7 +82,8 @@ def gen(rng: Rng, tier, i):
                         {"name": "tgt", "store": "zip"}])
     else:
         tgt = rng.pick([{"name": "tgt", "store": "dir"}, {"name": "tgt", "store": "auto"}])
-    pre = rng.weighted([("absent", 4), ("file", 1), ("dir", 1)]) if nver == 1 else "absent"
+    pre = rng.weighted([("absent", 3), ("file", 2), ("dir", 1)]) if nver == 1 else "absent"
+    pre_size = rng.randrange(4)
     steps = []
     for v in range(nver):
         first = v == 0
@@ -99,7 +100,8 @@ def gen(rng: Rng, tier, i):
     if rng.chance(0.12):
         unpick = {"pos": rng.random(), "how": rng.pick(["generator", "reduce_raises"])}
     n_pos = TIERS[tier]["positions"]
-    return {"versions": versions, "target": tgt, "pre": pre, "steps": steps, "focus": focus,
+    return {"versions": versions, "target": tgt, "pre": pre, "pre_size": pre_size, "steps": steps,
+            "focus": focus,
             "unpicklable": unpick, "positions": f"sample:{n_pos}" if n_pos != "all" else "all",
             "env": serio.gen_env(rng.fork("env")), "pos_seed": rng.randrange(2 ** 32)}
 
@@ -133,7 +135,8 @@ def _setup_pre(E, plan, tgt_path):
         f.write(b"other")
     if plan["pre"] == "file":
         with open(tgt_path, "wb") as f:
-            f.write(b"foreign file contents \x00\x01" * 7)
+            # empty, tiny and larger foreign files (size-dependent handling must not exist)
+            f.write(b"foreign file contents \x00\x01" * [0, 1, 7, 300][plan.get("pre_size", 2) % 4])
     elif plan["pre"] == "dir":
         os.makedirs(os.path.join(tgt_path, "inner"))
         with open(os.path.join(tgt_path, "inner", "x.txt"), "w") as f:
